@@ -219,11 +219,10 @@ fn boundary_windows(n: usize, boundary: usize, rep: &mut Report) {
 }
 
 /// (d) structured orders at every length
-fn structured_orders(max_n: usize, rep: &mut Report) {
-    let k = 256;
+fn structured_orders(lens: Vec<usize>, rep: &mut Report) {
+    let k = lens.iter().copied().max().unwrap_or(2);
     let names: Vec<&'static str> = (0..k).map(|i| intern(&format!("q{i:03}"))).collect();
     let table = Table::new(names.iter().enumerate().map(|(i, n)| OpDesc::bin(n, i as i64, false)).collect());
-    let lens: Vec<usize> = (2..=max_n).collect();
     let accs = par_ranges(
         lens.len() as u64,
         1,
@@ -294,7 +293,7 @@ fn structured_orders(max_n: usize, rep: &mut Report) {
         rep.absorb(a);
     }
     eprintln!("  structured: t={:.1}s", rep.elapsed());
-    rep.bounds.push(format!("7 structured orders (ascending, descending, evens/odds, inside-out, outside-in, reversed 64-blocks) at every length 2..={max_n}, each with 4 operand modes (distinct variables, 3 variables in rotation, literals alternating with a variable, one variable): complete"));
+    rep.bounds.push(format!("7 structured orders (ascending, descending, evens/odds, inside-out, outside-in, reversed 64-blocks) at the lengths {}, each with 4 operand modes (distinct variables, 3 variables in rotation, literals alternating with a variable, one variable): complete", crate::common::ranges_text(&lens)));
 }
 
 /// (e) chains beyond the inline capacity of the multi-word tracker (32 words = 2048 operands)
@@ -370,7 +369,7 @@ pub fn run(tier: Tier) -> i32 {
         for (n, b) in [(70, 64), (130, 64), (134, 128), (198, 128), (198, 192), (257, 192)] {
             boundary_windows(n, b, &mut rep);
         }
-        structured_orders(257, &mut rep);
+        structured_orders((2..=260).chain(510..=514).collect(), &mut rep);
     } else {
         for n in [64, 65, 66] {
             tracker_situations(n, &[0, 1, 64], 1, &mut rep);
@@ -378,7 +377,7 @@ pub fn run(tier: Tier) -> i32 {
         tracker_situations(129, &[0, 1, 64], 8, &mut rep);
         tracker_situations(193, &[0, 64], 32, &mut rep);
         boundary_windows(70, 64, &mut rep);
-        structured_orders(140, &mut rep);
+        structured_orders((2..=140).chain(254..=258).collect(), &mut rep);
     }
     very_long_chains(tier, &mut rep);
     rep.finish()
